@@ -92,6 +92,16 @@ Theorem C09_multidatagram_exact : forall specs idx data base bs us,
 Proof. exact md_build_exact. Qed.
 Print Assumptions C09_multidatagram_exact.
 
+(** ... and which error: class 7 for an empty spec list, else the error of the entry selected for
+    the datagram — the class of its failed bounds check or, bounds fine, the oracle's failure. *)
+Theorem C09_multidatagram_error_class : forall specs idx data base bs us c,
+  Forall rf_wf specs -> 0 <= idx -> 0 <= base -> base + zlen data <= maxVarInt8 ->
+  md_build specs idx data base bs us = Err c ->
+  (specs = [] /\ c = 7) \/
+  exists p, In p specs /\ (check_bounds p = Err c \/ (check_bounds p = Ok tt /\ (c = 6 \/ c = 90))).
+Proof. exact md_build_error_class. Qed.
+Print Assumptions C09_multidatagram_error_class.
+
 (** QUICCryptoRange.resolve, for ALL integers (Offset, Length) and stream lengths: an error, or
     bounds with 0 <= start <= end <= n that are the documented ones; an error only when those
     documented bounds are not inside the stream. *)
@@ -223,6 +233,29 @@ Theorem C09_scrambler_complete_hello_offered : forall W e a1 b1 p,
 Proof. exact complete_hello_offered. Qed.
 Print Assumptions C09_scrambler_complete_hello_offered.
 
+(** The same for every WHOLE handshake message, parsable by findSNIAndECH or not: the write that
+    completes it on a waiting stream either makes Write return an error or makes HasData true —
+    no complete ClientHello is silently kept back.  REFUTED before the repair
+    fixes/C09-scrambler-unparsable-complete-hello (a complete message answered with
+    io.ErrUnexpectedEOF — an SNI extension with an empty body, one byte behind the message — was
+    never sent and nothing reported why; known finding scrambler/never-sent/unparsable-complete-hello). *)
+Theorem C09_scrambler_complete_message_offered : forall W a1 b1 p,
+  bytes_ok (W ++ p) -> message_complete (W ++ p) = true ->
+  snd (write (mkS W 0 true 0 Inv a1 Inv b1) p) = 2 \/
+  has_data (fst (write (mkS W 0 true 0 Inv a1 Inv b1) p)) = true.
+Proof. exact complete_message_offered. Qed.
+Print Assumptions C09_scrambler_complete_message_offered.
+
+(** Regression: the audit's two witnesses (class 1 although complete) are now sent whole. *)
+Example C09_scrambler_unparsable_complete_regression :
+  sCls (find_sni_ech ch_sni_empty_ext) = 1 /\ sCls (find_sni_ech (ch_ech_no_sni ++ [22])) = 1 /\
+  (exists s W fs, run (init true) [] [] [SWrite ch_sni_empty_ext; SPop 1200] = Ok (s, W, fs)
+     /\ has_data s = false /\ fs = [(0, ch_sni_empty_ext)]) /\
+  (exists s W fs, run (init true) [] [] [SWrite (ch_ech_no_sni ++ [22]); SPop 1200] = Ok (s, W, fs)
+     /\ has_data s = false /\ fs = [(0, ch_ech_no_sni ++ [22])]).
+Proof. exact unparsable_complete_now_sent. Qed.
+Print Assumptions C09_scrambler_unparsable_complete_regression.
+
 (** No wedge: in every state reachable by writes and pops ([sinv] is the invariant of
     C09_scrambler_exact's proof, established by [init] and preserved by every op), while HasData
     is true a PopCryptoFrame with a budget of at least 11 bytes either yields a frame or leaves
@@ -267,12 +300,14 @@ Proof. exact empty_host_name_now_drains. Qed.
 Print Assumptions C09_scrambler_empty_host_name_regression.
 
 (** validateInitialFlight on ARBITRARY payloads — whatever a custom QUICFlightFrameBuilder returns
-    (bytes, each payload shorter than 2^48): it never panics (result class -1), and when it
+    (bytes, each payload shorter than 2^48) and a non-empty budget list (flightBudgets never returns
+    an empty one; with none the code indexes budgets[-1]): it never panics (result class -1), and when it
     accepts, every payload is a well-formed sequence of PADDING, PING and complete CRYPTO frames
     with one-byte frame types (the strict reader [strict_frames] parses it) whose CRYPTO frames
     cover every byte of the stream with data really present in the payload.  Both parts failed
     before the repair fixes/C09-validate-initial-flight-strict-frames. *)
 Theorem C09_validate_sound : forall ps budgets n,
+  budgets <> [] ->
   Forall (fun p => bytes_ok p /\ zlen p <= 2 ^ 48) ps ->
   validate ps budgets n <> -1 /\
   (validate ps budgets n = 0 ->
@@ -314,9 +349,14 @@ Print Assumptions C09_validate_rejects_former_witnesses.
     I.   First flight, per-datagram builders, for every packer configuration [c] and payload
          length oracle [plens] of C10's flight model: the frames popped for the datagrams are, in
          order, a chain of non-empty ranges from 0 inside the hello, so the datagrams' CRYPTO
-         frames partition [0,E), E = bytes popped (E = |hello| exactly when the flight drained
-         the stream: C10's budgets guarantee at least one byte per datagram, its model stops
-         after 10 datagrams); each datagram is [packet_exact] for every datagram index and both
+         frames partition [0,E), E = bytes popped; and E = |hello| — the flight carries the WHOLE
+         ClientHello, across however many datagrams it takes — whenever no datagram of the
+         flight failed ([no_dgerr]: no builder/oracle error, no packet-buffer overflow; C10's
+         DGErr 98 "out of fuel" never occurs: C10_flight_fuel_sufficient) and every datagram has
+         room for one CRYPTO byte ([room]: the budget PackCoalescedPacket computes minus the
+         header leaves a minimal CRYPTO frame; what C10's dial-time validation of PacketSize
+         provides).  Remaining model cap: C10's popLoop pops at most 4 CRYPTO frames per datagram
+         (the packer's loop has no such bound; a datagram then simply carries less).  Each datagram is [packet_exact] for every datagram index and both
          oracles, never panics, and can only fail for a random builder — after the dial accepted
          the builder ([dial_check], the repair C09-validate-random-frames-at-dial) only by the
          randomness source's own failure.
@@ -324,8 +364,9 @@ Print Assumptions C09_validate_rejects_former_witnesses.
          true bytes (C09_flight_validated_complete), and the ranges registered for loss recovery
          lie inside the hello.  A rejected plan sends nothing (C10: flightPlanned yields [DGErr 2]).
     III. Every history of losses, acknowledgements and packing calls after a first flight whose
-         registered ranges lie in the hello and cover [0,n): no packing call errs, every byte
-         stays acknowledged, outstanding or queued (C02_initial_retx_complete), and every packet
+         registered ranges lie in the hello and cover [0,n): every byte stays acknowledged,
+         outstanding or queued (C02_initial_retx_complete; that no bookkeeping step errs holds by
+         construction of C02's model and is not restated), and every packet
          the history produces is [packet_exact] for the ranges it took — whatever the datagram
          index, the PING flag and both oracles. *)
 Theorem C09_flight_on_wire_complete : forall sb hello,
@@ -334,6 +375,7 @@ Theorem C09_flight_on_wire_complete : forall sb hello,
      let fss := map dg_frames (flight c (zlen hello) plens) in
      let E := total_len (concat fss) in
      rchain 0 (concat fss) /\ Forall range_pos (concat fss) /\ Forall (range_in hello) (concat fss) /\ E <= zlen hello /\
+     (no_dgerr (flight c (zlen hello) plens) -> room c -> E = zlen hello) /\
      (forall b, covers b (concat fss) <-> 0 <= b < E) /\
      (forall fs idx bs us, In fs fss -> 0 <= idx ->
         match marshal sb hello false idx fs false bs us with
@@ -353,7 +395,6 @@ Theorem C09_flight_on_wire_complete : forall sb hello,
      Forall (rok hello (negb (planned || is_flight sb))) (flat_map snd flight0) ->
      (forall b, 0 <= b < n -> covers b (flat_map snd flight0)) ->
      rrun planned (layout_of sb) (RS flight0 [] []) ops = Some (st', rs) ->
-     existsb is_err rs = false /\
      (forall b, 0 <= b < n -> covers b (all_ranges st')) /\
      (forall pn popped, In (RPkt pn popped) rs -> forall idx ping bs us, 0 <= idx ->
         match marshal sb hello planned idx popped ping bs us with
@@ -414,11 +455,35 @@ Print Assumptions C09_flight_on_wire_nonvacuous.
     replayed through the real packer by unit `uwire` (PlanCase: fixed table of overlapping,
     from-the-end and holed plans, and generated ones).
 
-    For EVERY plan — overlapping ranges, ranges addressed from the end, randomised cuts —, every
-    ClientHello, all budgets and both oracles: an accepted plan sends datagrams whose frames lie
-    inside the ClientHello, carry its bytes at absolute offsets, and whose CRYPTO ranges have
-    exactly the union [0, |hello|); a rejected plan (or a failing builder) sends nothing. *)
+    For EVERY in-range plan ([fb_ok]: non-negative PADDING lengths / QUICRandomFrames fields in
+    range) — overlapping ranges, ranges addressed from the end, randomised cuts —, every
+    ClientHello, every non-empty budget list and both oracles: planInitialFlight never panics,
+    and an accepted plan consists of datagrams whose frames lie inside the ClientHello, carry its
+    bytes at absolute offsets, and whose CRYPTO ranges have exactly the union [0, |hello|).
+    (That a REJECTED plan sends nothing is not a theorem: [flight_sent] returns [] then by its
+    definition — see C09_flight_sent_by_construction; the behaviour is carried by the PlanCase
+    replay through the real packer and the monitor uwire/plan/sent-although-rejected.) *)
 Theorem C09_planned_flight_complete : forall fb hello budgets bs us,
+  fb_ok fb -> zlen hello <= 2 ^ 48 -> budgets <> [] ->
+  match plan_flight fb hello budgets bs us with
+  | Ok (wss, _, _) =>
+    Forall (frame_in hello) wss /\
+    (forall j, (exists ws o d, In ws wss /\ In (o, d) (wcryptos ws) /\ o <= j < o + zlen d) <-> 0 <= j < zlen hello)
+  | Err _ => True
+  | Panic => False
+  end.
+Proof. exact plan_flight_sound. Qed.
+Print Assumptions C09_planned_flight_complete.
+
+Example C09_planned_flight_nonvacuous :
+  fb_ok (FBRandom [([(-3, 0); (0, 2)], mkRF 0 2 1 3 0 0 0); ([(2, -3)], mkRF 0 0 0 0 0 0 0)]) /\
+  fb_ok (FBFrames [[FCrypto (-3) 0; FPad 2]; [FCrypto 0 (-3); FPing]]).
+Proof. exact fb_ok_example. Qed.
+Print Assumptions C09_planned_flight_nonvacuous.
+
+(** By construction of [flight_sent] (the model of what packPlannedInitial sends): the planned
+    datagrams when the plan was accepted, nothing otherwise.  Tied to the code by replay only. *)
+Theorem C09_flight_sent_by_construction : forall fb hello budgets bs us,
   zlen hello <= 2 ^ 48 ->
   match plan_flight fb hello budgets bs us with
   | Ok (wss, _, _) =>
@@ -428,7 +493,7 @@ Theorem C09_planned_flight_complete : forall fb hello budgets bs us,
   | _ => flight_sent fb hello budgets bs us = []
   end.
 Proof. exact plan_flight_complete. Qed.
-Print Assumptions C09_planned_flight_complete.
+Print Assumptions C09_flight_sent_by_construction.
 
 (** The plan shape of seeded change C09-e (two bytes sent twice, a later byte never) is rejected
     and sends nothing; with the hole closed the overlapping plan is accepted. *)
@@ -458,3 +523,20 @@ Theorem C09_retx_drained_complete : forall planned layout flight0 n ops st' rs,
   forall b, 0 <= b < n -> covers b (rAcked st') \/ exists pn fs, In (pn, fs) (rOut st') /\ covers b fs.
 Proof. exact retx_drained_complete. Qed.
 Print Assumptions C09_retx_drained_complete.
+
+(** Non-vacuity of the drain clause of C09_flight_on_wire_complete (part I): a nil-builder
+    configuration has [room], and a 5000-byte ClientHello goes out in five datagrams without
+    error, all 5000 bytes popped. *)
+Example C09_flight_drains_nonvacuous :
+  room dr_cfg /\ no_dgerr (flight dr_cfg 5000 []) /\
+  length (flight dr_cfg 5000 []) = 5%nat /\
+  total_len (concat (map dg_frames (flight dr_cfg 5000 []))) = 5000.
+Proof. exact dr_example. Qed.
+Print Assumptions C09_flight_drains_nonvacuous.
+
+(** QUICRandomFlightFrames never panics for parameters in range (QUICFlightFrames:
+    C09_flight_frames_no_panic), whatever the ranges and both oracles. *)
+Theorem C09_random_flight_no_panic : forall fb hello bs us,
+  fb_ok fb -> zlen hello < 2 ^ 62 -> build_flight fb hello bs us <> Panic.
+Proof. exact build_flight_nopanic. Qed.
+Print Assumptions C09_random_flight_no_panic.
